@@ -32,3 +32,43 @@ def disable():
 
 
 enable()
+
+
+# ---- full finite-difference columns (C01: "no missing non-zeros in the declared sparsity pattern") -------------------------
+# check_partials stores the numerical Jacobian THROUGH the component's declared rows/cols: a dependency the component did
+# not declare is dropped from J_fd (the framework only notes the index of the first such column, without its value), so a
+# missing non-zero can never show up as a difference between J_fwd and J_fd.  The harness therefore keeps every column the
+# framework's own differencing produces, complete, keyed by (component path, output, input).
+CAPTURE = None
+_orig_set_col = dj._CheckingJacobian.set_col
+
+
+def _set_col(self, system, icol, column):
+    _orig_set_col(self, system, icol, column)
+    cap = CAPTURE
+    if cap is None:
+        return
+    import numpy as np
+
+    wrt, loc_idx = self._col_mapper.index2key_rel(icol)
+    sizes = getattr(self, "_oas_wrt_sizes", None)
+    if sizes is None:
+        sizes = self._oas_wrt_sizes = {w: wend - wstart for w, wstart, wend, _, _, _ in system._get_jac_wrts()}
+    pre = system.pathname + "." if system.pathname else ""
+    col = np.asarray(column)
+    for of, start, end, _, _ in system._get_jac_ofs():
+        key = (system.pathname, of[len(pre):] if of.startswith(pre) else of, wrt[len(pre):] if wrt.startswith(pre) else wrt)
+        arr = cap.get(key)
+        if arr is None:
+            arr = cap[key] = np.zeros((end - start, sizes[wrt]))
+        arr[:, loc_idx] = np.real(col[start:end])
+
+
+dj._CheckingJacobian.set_col = _set_col
+
+
+def capture(on=True):
+    """Start (returns the dict being filled) or stop capturing complete finite-difference columns."""
+    global CAPTURE
+    CAPTURE = {} if on else None
+    return CAPTURE
